@@ -336,7 +336,7 @@ theorem signed_prims : ExecPrims Signed where
   pushAp := fun c => signed_pushEntry (.ap [generationStub]) "" rfl rfl (by simp [entryCids, ownOf])
   thCanonStart := fun c _ th' h => signed_of_step (step_meetCanonStart h)
   canonTrack := by
-    intro env stream pos peerId c
+    intro env target stream pos peerId c
     unfold updCanonTrack
     exact signed_of_same rfl rfl rfl
   canonFinish := by
